@@ -27,8 +27,17 @@ def bench_text(nl: dict, keys=None) -> str:
     return '\n'.join(lines) + '\n'
 
 
+LAST = [None]  # the circuit most recently handed out (a check may want to see what was added to it afterwards)
+
+
 def build(nl: dict, route: dict | None = None):
     """Build a Circuit for the netlist by the given route (default: emplace in order)."""
+    c = _build(nl, route)
+    LAST[0] = c
+    return c
+
+
+def _build(nl: dict, route: dict | None = None):
     core = cirbo_core()
     Circuit, Gate = core.Circuit, core.Gate
     route = route or {'kind': 'emplace'}
@@ -37,13 +46,22 @@ def build(nl: dict, route: dict | None = None):
         c = Circuit.from_bench_string(bench_text(nl, route.get('keys')))
         return _finish(c, nl, route)
     c = Circuit()
-    for lab, typ, ops in nl['gates']:
+    watch = {int(x) % (len(nl['gates']) + 1) for x in route.get('observe') or []}
+    for pos, (lab, typ, ops) in enumerate(nl['gates']):
+        if pos in watch:
+            observe(c)
         if kind == 'add_gate':
             c.add_gate(Gate(lab, gate_type(typ), tuple(ops)))
         else:
             c.emplace_gate(lab, gate_type(typ), tuple(ops))
+    if watch:
+        observe(c)
     if list(c.inputs) != list(nl['inputs']):
         c.set_inputs(list(nl['inputs']))
+    if route.get('observe') and nl['outputs']:
+        # the outputs arrive in two steps with a look at the circuit in between
+        c.set_outputs(list(nl['outputs'][:1]))
+        observe(c)
     c.set_outputs(list(nl['outputs']))
     if kind == 'rename':
         labs = [g[0] for g in nl['gates']]
@@ -53,6 +71,25 @@ def build(nl: dict, route: dict | None = None):
             c.rename_gate(lab, tmp)
             c.rename_gate(tmp, lab)
     return _finish(c, nl, route)
+
+
+def observe(c):
+    """Read-only public calls made in the middle of a construction (a circuit is looked at while it is being built):
+    whatever they remember must not outlive the next mutation.  Results and refusals are ignored here."""
+    import copy
+
+    looks = (lambda: list(c.top_sort()), lambda: list(c.top_sort(inverse=True)), lambda: c.evaluate_full_circuit({}),
+             lambda: [c.index_of_input(i) for i in list(c.inputs)], lambda: copy.copy(c),
+             lambda: c.get_truth_table() if len(c.inputs) <= 5 else None,
+             lambda: c.get_gates_truth_table() if len(c.inputs) <= 5 else None,
+             lambda: [list(c.dfs()), list(c.bfs())], lambda: c.format_circuit(),
+             lambda: [c.evaluate_circuit({}), c.gates_number(), c.input_size, c.output_size],
+             lambda: [c.get_gate_users(l) for l in list(c.gates)])
+    for look in looks:
+        try:
+            look()
+        except Exception:  # noqa
+            pass
 
 
 def _finish(c, nl: dict, route: dict):
